@@ -58,6 +58,9 @@ def explore(core, rng, tier, seed, search=False):
     scripts.append(sc)
     # a close racing the timer of RecvTimeout on an empty channel: (0,false) whichever wins
     scripts.append(["recvclose %d %d %d %d" % (c, t, 150 if tier == "quick" else 3000, p) for c in (0, 1) for t in (1, 2) for p in (1, 4)])
+    # a hand-over racing the timer of SendTimeout: true exactly when handed over, whichever wins
+    scripts.append(["sendrace 0 %d %d %d" % (t, 300 if tier == "quick" else 6000, p) for t in (150, 300) for p in (2, 4)] +
+                   ["sendrace 1 %d %d %d" % (t, 60000 if tier == "quick" else 1000000, p) for t in (1, 40) for p in (1, 4)])
     # concurrent queued receivers (no sender): conservation under real parallelism
     sc = []
     for _ in range(40 if tier == "quick" else 1000):
